@@ -207,6 +207,28 @@ def handle (op : String) (j : Json) : Option (Except String Json) :=
           | .error _ => false
         let ev := if split then evalApprovalSplit else evalApproval
         pure (answer (slotsE (ev b)) (slotsE (ev p)) (some (dictJson approvalJson moved)))
+      else if rule = "score_gen" then
+        let b ← pDict pScoreBallot jb
+        let p ← pDict pScoreBallot jp
+        let pj ← j.getObjVal? "param"
+        let pfn : String → Except String ListFn := fun n => match n with
+          | "sum" => pure .sum | "mean" => pure .mean | "median" => pure .median | "min" => pure .min | "max" => pure .max
+          | "midrange" => pure .midrange
+          | other => match parseRat other with
+            | some v => pure (.const v)
+            | none => throw s!"score_gen: unknown function {other}"
+        let agg ← pfn (← pj.getObjValAs? String "fn")
+        let fill : Option ListFn ← match pj.getObjVal? "unscored" with
+          | .ok Json.null => pure none
+          | .ok (Json.str n) => do pure (some (← pfn n))
+          | _ => pure none
+        let moved ← match kind with
+          | "raise" => do
+            let x ← nthKey b (← mv.getObjValAs? Nat "ballot")
+            let s ← getRat mv "score"
+            pure (replaceUnit b x (raiseScore w s x))
+          | k => throw s!"score_gen: unknown move {k}"
+        pure (answer (slotsE (evalScoreGen agg fill b)) (slotsE (evalScoreGen agg fill p)) (some (dictJson scoreBallotJson moved)))
       else if rule = "score_trunc" then
         -- ScoreVoting(function, unscored_value, min_count, truncation): evaluated by the {score: count} table model of C12
         let b ← pDict pScoreBallot jb
